@@ -241,7 +241,9 @@ def script_program(stratum, rnd):
         # a body that reads a loop-carried value AFTER the node that computes its next value (two shifted state variables,
         # or old-vs-new difference): ONNX bodies hand all next values over at the end of the iteration, Python assigns in order
         form = stratum.split(":", 1)[1] if ":" in stratum else rnd.choice(["fib_for", "fib_for_n", "delta_for", "fib_while"])
-        lines.append(f"    prev = op.Identity({rnd.choice(pool)})")
+        # the second state variable starts from a value of its own (two state variables that start equal hid the seeded
+        # change C13-3 at VERIF_SEED=1)
+        lines.append(f"    prev = op.Abs({rnd.choice(pool)}) + 1.5")
         if form in ("fib_for", "fib_for_n"):
             if form == "fib_for_n":
                 uses_n = True
